@@ -18,7 +18,9 @@ from fractions import Fraction
 ID = "C07"; MODEL = "chan"; IMPL = "chan"
 COQ_PROP = "Properties/C07.v"; COQ_DIRS = ["Common", "Channel"]
 COQ_MODULE = "Channel.Model"; RUN_FN = "run"
-THEOREMS = []
+THEOREMS = ["C07_account", "C07_account_none_twice", "C07_run_completes", "C07_idle_implies_queue_empty", "C07_delivery_time",
+            "C07_started_delivered_or_in_flight", "C07_busy_span", "C07_unbusy_stamp", "C07_fifo_start", "C07_direct_start",
+            "C07_fifo_order", "C07_zero_jitter_preserves_order", "C07_queue_limit"]
 QUICK_N = 3000; THOROUGH_N = 200000
 XCHECK_N = 40
 RULE = ("scripts from a structured generator: bitrate in {0,1,8,1e3,1e9,2e12,usize::MAX,random}, total sizes {64,65,1088,65600}, "
